@@ -19,7 +19,7 @@ from .world import strip_docstring
 INLINE_CLASSES = {
     "TextXError", "TextXSemanticError", "TextXSyntaxError", "TextXRegistrationError",
     "ObjCrossRef", "RefRulePosition", "MetaAttr", "ClassCrossRef", "Postponed",
-    "ReferenceResolver", "LanguageDesc", "GeneratorDesc",
+    "ReferenceResolver", "LanguageDesc", "GeneratorDesc", "PlainName",
 }
 
 
@@ -107,12 +107,26 @@ class CallMixin:
         if isinstance(spec, Ext):
             term = self.to_val(fn) if fn.k != "py" or isinstance(fn.r, (PyFunc, PyClass)) else None
             return self.ext_call(spec, term, args, kwargs, n)
+        if isinstance(spec, str) and spec.split(".")[0] in ("list", "dict", "set"):
+            # the contract says the receiver is a list/dict/set here; that is a
+            # proof obligation at this call site, then the primitive applies
+            kind, meth = spec.split(".")
+            recv = self.eval(n.func.value, frame)
+            v = self.to_val(recv)
+            goal = z3.And(Val.is_ref(v), cls_of(Val.a(v)) == CLASSES.addr(kind))
+            self.oblige("CALL", f"receiver-is-{kind}@{getattr(n, 'lineno', 0)}", goal,
+                        f"{ast.unparse(n.func.value)} is a {kind}", None)
+            recv = TV("val", v, kind)
+            m = getattr(self, f"m_{kind}_{meth}")
+            return m(recv, args, kwargs, n)
         if isinstance(spec, str):
             from .contracts import REGISTRY
 
             unit = REGISTRY[spec]
             bound = None
-            if isinstance(n.func, ast.Attribute) and frame is not None:
+            if fn.k == "val" and (fn.hint or "").startswith("obj:"):
+                bound = fn  # calling an instance: its __call__ contract
+            elif isinstance(n.func, ast.Attribute) and frame is not None:
                 bound = self.eval(n.func.value, frame)
             return self.apply_contract(unit, args, kwargs, n, bound)
         raise Unsupported("calls entry kind")
@@ -125,6 +139,17 @@ class CallMixin:
         tgt = self.func_target(pf)
         is_self = self.unit is not None and tgt == self.unit.target
         unit = BY_TARGET.get(tgt)
+        if self.unit is not None and n is not None and hasattr(n, "func"):
+            # the verified unit may name the contract of a callee explicitly
+            text = ast.unparse(n.func)
+            sp = self.unit.calls.get(text)
+            if isinstance(sp, Ext):
+                return self.ext_call(sp, None, ([pf.bound_self] if pf.bound_self is not None else []) + list(args),
+                                     kwargs, n)
+            if isinstance(sp, str) and sp.split(".")[0] not in ("list", "dict", "set"):
+                from .contracts import REGISTRY
+
+                return self.apply_contract(REGISTRY[sp], args, kwargs, n, pf.bound_self)
         inline_ok = (
             pf.frame is not None  # closure defined inside the code being executed
             or isinstance(pf.node, ast.Lambda)
@@ -264,6 +289,7 @@ class CallMixin:
             "kwargs": {k: (self.to_val(v) if not (v.k == "py" and not isinstance(v.r, (PyFunc, PyClass, list, tuple))) else None) for k, v in kwargs.items() if k != "**"},
             "heap_before": self.heap,
             "line": getattr(n, "lineno", 0),
+            "preserves": tuple(ext.preserves) + tuple(getattr(self.unit, "ext_preserves", ()) if self.unit else ()),
         }
         protect = []
         for spec_text in list(ext.protect) + list(self.unit.ext_protect if self.unit else []):
@@ -343,7 +369,7 @@ class CallMixin:
                     return z3.BoolVal(True) if len(idx) == 2 or field in ("llen", "dklen") else None
                 return z3.simplify(z3.Not(z3.Or(*cs)))
 
-        self.heap = self.heap.havoc(cond, tag=core.fresh_name(tag))
+        self.heap = self.heap.havoc(cond, tag=core.fresh_name(tag), preserves=ev.get("preserves", ()))
         self.invalidate_shapes(cond)
         self.next_addr = fresh("N", core.IntS)
         self.assume(self.next_addr >= old_next)
@@ -399,4 +425,6 @@ class CallMixin:
         return [("attr", ev_.addr_of(v), z3.StringVal(attr))]
 
     def spec_env_default(self):
+        if getattr(self, "cur_frame", None) is not None:
+            return self.loop_env(self.cur_frame)
         return dict(self.root_frame.vars) if getattr(self, "root_frame", None) else {}
